@@ -5,8 +5,10 @@ from symex.run import Harness
 
 from . import common as C
 
+# plain dotted decimals and unmistakable non-versions only: whether "v2.0" or "2.0-beta" are
+# "versions" is the version library's business, not fixed by the property (see DESIGN, Corrections)
 VERSION_GRID = ["1.4", "1.5", "2.0", "2.1", "2.2", "2.3", "1.3", "0.9", "1.10", "2.0.0", "1.4.1",
-                "1.3.9", "3.0", "2", "1", "", "abc", "1.x", "v2.0", "2.0-beta"]
+                "1.3.9", "3.0", "2", "1", "", "abc", "one.two"]
 
 
 def version_ok(text):
@@ -32,6 +34,10 @@ def numeric_cells(version):
             if kind in ("PCT", "INT", "TIME", "ID", "CONFIG", "FLOAT", "BIN"):
                 cells.append((cmd, sub))
     return cells
+
+
+def one_of_ints(w, x, values):
+    return w.or_(*[w.eq(x, v) for v in values])
 
 
 def equivalence(versions, P, N):
@@ -81,6 +87,12 @@ def equivalence(versions, P, N):
         else:
             payload = w.pick(VERSION_GRID, "version_payload")
             w.assume_fast(is_version_cell)
+        if kind != "short":
+            # payload-rule kinds: the header is pinned to a valid one (header rules are decided
+            # independently of the payload and are covered by the "short" kind)
+            w.assume_fast(w.and_(w.eq(node, 1), w.eq(ack, 0)))
+            w.assume_fast(w.or_(w.and_(one_of_ints(w, cmd, (0, 3, 4)), w.eq(child, 255)),
+                                w.and_(one_of_ints(w, cmd, (1, 2)), w.eq(child, 0))))
         w.info = {"version": version, "kind": kind, "fields": ints, "payload": payload}
         msg = w.new(Message, node_id=node, child_id=child, type=cmd, ack=ack, sub_type=sub,
                     payload=payload)
